@@ -1,13 +1,21 @@
-(* Driver entry for C03: builds a one-bucket store on a chosen back end model by inserting
-   the given events one by one (ids are the model's own), then answers window queries
-   through Model/Window.v (Bucket.get's rounding + the storage read; Bucket.get_eventcount
-   without rounding).
-     case    : (backend (ev ...) (query ...) ((ts dur end_ms) ...))
+(* Driver entry for C03: runs a SCRIPT on a chosen back end model -- write operations of the
+   storage interface (create / delete bucket, insert, bulk insert / upsert, replace,
+   replace_last, delete: the store models' own step functions) interleaved with window
+   queries addressed to any bucket -- and answers each query on the state reached at that
+   point through Model/Window.v (Bucket.get's rounding + the storage read;
+   Bucket.get_eventcount without rounding).  One case is ONE storage instance; a process that
+   holds several instances is several cases (the model has no state outside the instance).
+     case    : (backend (step ...) ((ts dur end_ms) ...))
                backend 0 = memory, 1 = sqlite, 2 = peewee
                the last component is the table of SQLite's strftime end instants of the stored
-               rows (peewee only; every stored (ts, dur) must be listed), measured by the
-               harness on the engine itself
-     ev      : (() ts dur data)
+               rows (peewee only; every (ts, dur) stored at the time of a query must be
+               listed), measured by the harness on the engine itself
+     step    : (0 op)        op in the wire form of Extract/ExC02.v:
+                             (0 b meta) create | (2 b) delete_bucket | (5 b ev) insert_one
+                             (6 b (ev..)) insert_many | (7 b id ev) replace | (8 b ev) replace_last
+                             (9 b id) delete | ... (all thirteen are decoded)
+               (1 b query)   a query on bucket b
+     ev      : (id? ts dur data)
      query   : (0 limit ws? we? plo? phi?)   Bucket.get(limit, ws, we)
                (1 ws? we? plo? phi?)         Bucket.get_eventcount(ws, we)
                (2 utc off)                   the rounding alone, for an aware datetime
@@ -15,40 +23,66 @@
                receives for its start / end edge (computed inside Coq by Model/WindowFloat.v
                for the edge that reaches the storage: rounded for 0, raw for 1); () when the
                edge is absent or the back end is not sqlite
-     result  : (r ...) one per query
-               0 -> (res ws'? we'?)   res = (0 (2 (ev ..))) | (1 errcode)
-               1 -> (res)             res = (0 (3 n)) | (1 errcode)
-               2 -> (start' end')  *)
+     result  : (r ...) one per step
+               op step -> res = (0 out) | (1 errcode)     (out as in ExC02.v)
+               query 0 -> (res ws'? we'?)   res = (0 (2 (ev ..))) | (1 errcode)
+               query 1 -> (res)             res = (0 (3 n)) | (1 errcode)
+               query 2 -> (start' end')  *)
 From AwVerif Require Import Base.Prelude Base.Sexp Model.StoreBase Model.MemStore
   Model.SqliteStore Model.PeeweeStore Model.Window.
 Require Extraction.
 Require Import ExtrOcamlBasic.
 
-Definition out_s (o : out) : sexp :=
-  match o with
-  | OEvents l => L [A 2; events_s l]
-  | OCount n => L [A 3; A n]
-  | _ => L [A (-1)]
+Definition sMeta (s : sexp) : option meta :=
+  match s with
+  | L [A ty; A cl; A ho; A cr; na; A da] =>
+      match sOptZ na with Some na => Some (mkMeta ty cl ho cr na da) | None => None end
+  | _ => None
+  end.
+Definition meta_s (m : meta) : sexp :=
+  L [A (m_type m); A (m_client m); A (m_hostname m); A (m_created m); optZ_s (m_name m); A (m_data m)].
+
+Definition sOp (s : sexp) : option op :=
+  match s with
+  | L [A 0; A b; m] => match sMeta m with Some m => Some (CreateBucket b m) | None => None end
+  | L [A 1; A b; ty; cl; ho; na; da] =>
+      match sOptZ ty, sOptZ cl, sOptZ ho, sOptZ na, sOptZ da with
+      | Some ty, Some cl, Some ho, Some na, Some da => Some (UpdateBucket b ty cl ho na da)
+      | _, _, _, _, _ => None
+      end
+  | L [A 2; A b] => Some (DeleteBucket b)
+  | L [A 3] => Some Buckets
+  | L [A 4; A b] => Some (GetMetadata b)
+  | L [A 5; A b; e] => match sEvent e with Some e => Some (InsertOne b e) | None => None end
+  | L [A 6; A b; es] => match sEvents es with Some es => Some (InsertMany b es) | None => None end
+  | L [A 7; A b; A i; e] => match sEvent e with Some e => Some (Replace b i e) | None => None end
+  | L [A 8; A b; e] => match sEvent e with Some e => Some (ReplaceLast b e) | None => None end
+  | L [A 9; A b; A i] => Some (Delete b i)
+  | L [A 10; A b; A i] => Some (GetEvent b i)
+  | L [A 11; A b; A limit; st; en] =>
+      match sOptZ st, sOptZ en with
+      | Some st, Some en => Some (GetEvents b limit st en)
+      | _, _ => None
+      end
+  | L [A 12; A b; st; en] =>
+      match sOptZ st, sOptZ en with
+      | Some st, Some en => Some (GetEventCount b st en)
+      | _, _ => None
+      end
+  | _ => None
   end.
 
-Definition the_meta : meta := mkMeta 1 1 1 0 None 0.
-
-Section Build.
-  Context {S : Type} (step : S -> op -> S * res out).
-  Fixpoint insert_all (c : S) (es : list event) : option S :=
-    match es with
-    | [] => Some c
-    | e :: t => match step c (InsertOne 1 e) with
-                | (c', Ok _) => insert_all c' t
-                | _ => None
-                end
-    end.
-  Definition build (init : S) (es : list event) : option S :=
-    match step init (CreateBucket 1 the_meta) with
-    | (c, Ok _) => insert_all c es
-    | _ => None
-    end.
-End Build.
+Definition out_s (o : out) : sexp :=
+  match o with
+  | ONone => L [A 0]
+  | OEvent None => L [A 1; L []]
+  | OEvent (Some e) => L [A 1; L [event_s e]]
+  | OEvents l => L [A 2; events_s l]
+  | OCount n => L [A 3; A n]
+  | OBool b => L [A 4; bool_s b]
+  | OMeta b m => L [A 5; A b; meta_s m]
+  | OBuckets l => L [A 6; L (map (fun bm => L [A (fst bm); meta_s (snd bm)]) l)]
+  end.
 
 Inductive query :=
   | QRead (limit : Z) (ws we plo phi : option Z)
@@ -71,6 +105,29 @@ Definition sQuery (s : sexp) : option query :=
   | _ => None
   end.
 
+Inductive step :=
+  | SOp (o : op)
+  | SQuery (b : Z) (q : query).
+
+Definition sStep (s : sexp) : option step :=
+  match s with
+  | L [A 0; o] => match sOp o with Some o => Some (SOp o) | None => None end
+  | L [A 1; A b; q] => match sQuery q with Some q => Some (SQuery b q) | None => None end
+  | _ => None
+  end.
+
+(* the script: writes move the state (the store model's own step function), queries are
+   answered on the state reached and leave it alone *)
+Section Run.
+  Context {S : Type} (stepf : S -> op -> S * res out) (answer : S -> Z -> query -> sexp).
+  Fixpoint run_script (c : S) (l : list step) : list sexp :=
+    match l with
+    | [] => []
+    | SOp o :: t => let '(c', r) := stepf c o in res_s out_s r :: run_script c' t
+    | SQuery b q :: t => answer c b q :: run_script c t
+    end.
+End Run.
+
 (* the parameter functions of one sqlite query: the supplied integer for the edge that is
    present; a query that has an edge but no parameter for it is undecodable *)
 Definition param_ok (edge p : option Z) : bool :=
@@ -89,8 +146,8 @@ Fixpoint lookup_end (tbl : list (Z * Z * Z)) (t d : Z) : option Z :=
   | [] => None
   | (a, b, c) :: r => if (a =? t) && (b =? d) then Some c else lookup_end r t d
   end.
-Definition covered (tbl : list (Z * Z * Z)) (es : list event) : bool :=
-  forallb (fun e => match lookup_end tbl (ts e) (dur e) with Some _ => true | None => false end) es.
+Definition covered (tbl : list (Z * Z * Z)) (rows : list perow) : bool :=
+  forallb (fun r => match lookup_end tbl (pe_ts r) (pe_dur r) with Some _ => true | None => false end) rows.
 (* total only because [covered] is checked first; the fallback is never consulted for a
    stored row *)
 Definition table_end (tbl : list (Z * Z * Z)) (t d : Z) : Z :=
@@ -99,57 +156,46 @@ Definition table_end (tbl : list (Z * Z * Z)) (t d : Z) : Z :=
 Definition round_s (ws we : option Z) : list sexp :=
   let r := bucket_get_round ws we in [optZ_s (fst r); optZ_s (snd r)].
 
-Definition answer_mem (c : mstate) (q : query) : sexp :=
+Definition answer_mem (c : mstate) (b : Z) (q : query) : sexp :=
   match q with
-  | QRead limit ws we _ _ => L (res_s out_s (mem_read c 1 limit ws we) :: round_s ws we)
-  | QCount ws we _ _ => L [res_s out_s (mem_readcount c 1 ws we)]
+  | QRead limit ws we _ _ => L (res_s out_s (mem_read c b limit ws we) :: round_s ws we)
+  | QCount ws we _ _ => L [res_s out_s (mem_readcount c b ws we)]
   | QRound utc off => L [A (round_start_tz utc off); A (round_end_tz utc off)]
   end.
 
-Definition answer_sq (c : sqstate) (q : query) : sexp :=
+Definition answer_sq (c : sqstate) (b : Z) (q : query) : sexp :=
   match q with
   | QRead limit ws we plo phi =>
       if param_ok ws plo && param_ok we phi then
-        L (res_s out_s (sq_read (const_param plo) (const_param phi) c 1 limit ws we) :: round_s ws we)
+        L (res_s out_s (sq_read (const_param plo) (const_param phi) c b limit ws we) :: round_s ws we)
       else bad_case
   | QCount ws we plo phi =>
       if param_ok ws plo && param_ok we phi then
-        L [res_s out_s (sq_readcount (const_param plo) (const_param phi) c 1 ws we)]
+        L [res_s out_s (sq_readcount (const_param plo) (const_param phi) c b ws we)]
       else bad_case
   | QRound utc off => L [A (round_start_tz utc off); A (round_end_tz utc off)]
   end.
 
-Definition answer_pw (tbl : list (Z * Z * Z)) (c : pwstate) (q : query) : sexp :=
-  match q with
-  | QRead limit ws we _ _ => L (res_s out_s (pw_read (table_end tbl) c 1 limit ws we) :: round_s ws we)
-  | QCount ws we _ _ => L [res_s out_s (pw_readcount (table_end tbl) c 1 ws we)]
-  | QRound utc off => L [A (round_start_tz utc off); A (round_end_tz utc off)]
-  end.
+(* every row of the events table (of any bucket) at the time of the query must be listed *)
+Definition answer_pw (tbl : list (Z * Z * Z)) (c : pwstate) (b : Z) (q : query) : sexp :=
+  if covered tbl (pw_events c) then
+    match q with
+    | QRead limit ws we _ _ => L (res_s out_s (pw_read (table_end tbl) c b limit ws we) :: round_s ws we)
+    | QCount ws we _ _ => L [res_s out_s (pw_readcount (table_end tbl) c b ws we)]
+    | QRound utc off => L [A (round_start_tz utc off); A (round_end_tz utc off)]
+    end
+  else bad_case.
 
 Definition driver_entry (s : sexp) : sexp :=
   match s with
-  | L [A backend; evs; L qs; tbl] =>
-      match sEvents evs, opt_all (map sQuery qs), sList sTriple tbl with
-      | Some evs, Some qs, Some tbl =>
-          if backend =? 0 then
-            match build mem_step mem_init evs with
-            | Some c => L (map (answer_mem c) qs)
-            | None => bad_case
-            end
-          else if backend =? 1 then
-            match build sq_step sq_init evs with
-            | Some c => L (map (answer_sq c) qs)
-            | None => bad_case
-            end
-          else if backend =? 2 then
-            if covered tbl evs then
-              match build pw_step pw_init evs with
-              | Some c => L (map (answer_pw tbl c) qs)
-              | None => bad_case
-              end
-            else bad_case
+  | L [A backend; L steps; tbl] =>
+      match opt_all (map sStep steps), sList sTriple tbl with
+      | Some steps, Some tbl =>
+          if backend =? 0 then L (run_script mem_step answer_mem mem_init steps)
+          else if backend =? 1 then L (run_script sq_step answer_sq sq_init steps)
+          else if backend =? 2 then L (run_script pw_step (answer_pw tbl) pw_init steps)
           else bad_case
-      | _, _, _ => bad_case
+      | _, _ => bad_case
       end
   | _ => bad_case
   end.
